@@ -555,7 +555,52 @@ def r9_hashed_bytes(ctx, cfg):
     ctx.floor(rule, n, cfg.get("r9_floor", 3), "digests over a raw input buffer in validators")
 
 
+def r10_skipped_only_when_absent(ctx, cfg=None, rule="C07.R10"):
+    """a checksum that travels with the data (V1 Ribbit epilogue) is optional on the wire; when it is there it is checked. The only
+    way round the validator is the None edge of the test of the extracted checksum - no other condition (a signature part being
+    present, a size, a flag) may skip it"""
+    ctx.rule(rule, "every path from entry to an accepting return of a V1-MIME parser passes validate_checksum or the None edge of the "
+                   "extracted checksum (edge-sensitive)")
+    n = 0
+    for b in ctx.prog.bodies.values():
+        if b.krate != "cascette_protocol" or b.root:
+            continue
+        vs = [c for c in b.calls if re.search(r"::validate_checksum$", c.name) and c.bb in b.live_blocks()]
+        if not vs:
+            continue
+        ctx.saw(b)
+        v = vs[0]
+        # the Option the expected value is taken from
+        opt = set()
+        if len(v.args) > 1 and op_local(v.args[1]) is not None:
+            sl = Slice(b, [op_local(v.args[1])], transparent=re.compile(r"\bDeref>?::deref$|\bAsRef<.*>>?::as_ref$|String::as_str$"))
+            for pl in sl.places:
+                if len(pl) > 1 and any(isinstance(e, dict) and e.get("d") == "Some" for e in pl[1:]):
+                    opt |= set(copies_of(b, pl[0]))
+        if not ctx.anchor(rule, opt, "Option holding the extracted checksum in %s" % b.id):
+            continue
+        succ2 = [list(x) for x in b.succ]
+        cut = 0
+        for o in sorted(opt):
+            for (sbb, m, other, via) in enum_switches(b, o, through_try=False):
+                none_t = m.get(0, other if 1 in m else None)
+                if none_t is not None and none_t != m.get(1):
+                    succ2[sbb] = [x for x in succ2[sbb] if x != none_t]
+                    cut += 1
+        if not ctx.anchor(rule, cut, "test of the extracted checksum in %s" % b.id):
+            continue
+        n += 1
+        acc = accepting_blocks(b)
+        leak = b.reachable([0], avoid={x.bb for x in vs}, succ=succ2) & acc
+        ctx.check(not leak, rule, [b.id, "checked-whenever-present"], "a present checksum is always validated",
+                  "%s can accept a response that carries a checksum without validating it (some condition other than the checksum's absence skips "
+                  "validate_checksum): a corrupted answer is parsed, returned as Ok and cached" % ctx._stable(b.id), v.loc(),
+                  sample={"validator_call": v.loc(), "none_edges_cut": cut})
+    ctx.floor(rule, n, 2, "V1-MIME parsers with an optional epilogue checksum")
+
+
 def run(ctx, cfg=CFG):
+    r10_skipped_only_when_absent(ctx, cfg)
     r8_prevalidated(ctx, cfg)
     r9_hashed_bytes(ctx, cfg)
     r1_r2(ctx, cfg)
